@@ -93,6 +93,13 @@ class Pairs(HypPart):
                 a = a.rstrip('\n') + '\n\n' + t.choice(['para', '# h', 'Foo\n===', '***', '> q', '> - x\n> ```\n> c', '|a|b|\n|-|-|\n|c|d|',
                                                          '#', '> # h', '---', 'a\n    b', '> a\nlazy', '[x]', '> ```'])
             _, b = pools.any_text(t, 200)
+            if t.chance(40):
+                # B begins with a line that A also holds (A in a paragraph, B as the start of another construct):
+                # whatever is remembered per line text within one document would cross over
+                x, cont = t.choice([('a | b', '-|-\n1 | 2'), ('Foo', '==='), ('Foo', '---'), ('[r]: /u', '"t"'), ('x | y', ':-|-:'),
+                                    ('- a', '  b'), ('> q', '> r'), ('<div>', 'c'), ('```', 'code\n```')])
+                a = t.choice(['text\n' + x, 'p\n\ntext\n' + x + '\nmore', x]) + t.choice(['', '\n'])
+                b = x + '\n' + cont + '\n'
             yield {'a': a, 'b': b, 'tokens': t.choice(['Html', 'bare', 'Html'])}
 
     def check(self, case):
